@@ -1,3 +1,5 @@
+// verifharness runs the real sunrise application for one property and writes the
+// observations as Coq terms (cases_*.v) plus stats.json.
 package main
 
 import (
@@ -7,13 +9,51 @@ import (
 	"time"
 
 	"verifharness/apph"
+	"verifharness/c01"
+	"verifharness/c02"
+	"verifharness/c03"
+	"verifharness/c04"
+	"verifharness/c05"
+	"verifharness/c06"
+	"verifharness/c07"
+	"verifharness/c08"
+	"verifharness/c09"
+	"verifharness/c10"
+	"verifharness/c11"
+	"verifharness/c12"
 	"verifharness/c13"
+	"verifharness/c14"
+	"verifharness/c15"
+	"verifharness/c16"
+	"verifharness/c17"
+	"verifharness/c18"
+	"verifharness/c19"
+	"verifharness/c20"
 )
 
 type runner func(seed int64, n int, out string) error
 
 var props = map[string]runner{
+	"c01": c01.Run,
+	"c02": c02.Run,
+	"c03": c03.Run,
+	"c04": c04.Run,
+	"c05": c05.Run,
+	"c06": c06.Run,
+	"c07": c07.Run,
+	"c08": c08.Run,
+	"c09": c09.Run,
+	"c10": c10.Run,
+	"c11": c11.Run,
+	"c12": c12.Run,
 	"c13": c13.Run,
+	"c14": c14.Run,
+	"c15": c15.Run,
+	"c16": c16.Run,
+	"c17": c17.Run,
+	"c18": c18.Run,
+	"c19": c19.Run,
+	"c20": c20.Run,
 }
 
 func main() {
